@@ -148,6 +148,21 @@ def run(ctx):
             # map reduced unlabeled rows to original indices by matching feature rows in order among the candidate set
             subset = recover_subset(X, y, rec["X"], rec["y"], cs)
             if subset is None:
+                # the sub-sample cannot be read off the reduced data set: still judge the caller-visible output by the statement
+                picks_ = [int(i) for i in np.asarray(idx).ravel()]
+                rows_ = np.asarray(ut, dtype=float)
+                msg_ = None
+                if not set(picks_) <= set(cs) or len(set(picks_)) != len(picks_):
+                    msg_ = ("selection_outside", f"selected {picks_} not all within the candidates {cs}")
+                elif rows_.ndim == 2 and rows_.shape[1] == n:
+                    noncand = [j for j in range(n) if j not in cs]
+                    badj = [j for j in noncand if not np.all(np.isnan(rows_[:, j]))]
+                    if badj:
+                        msg_ = ("utilities_non_candidates", f"non-candidates {badj} have utilities, expected NaN")
+                if msg_:
+                    ctx.violation("SubSamplingWrapper", msg_[0], msg_[1],
+                                  {"X": X.tolist(), "y": [None if np.isnan(v) else v for v in y], "candidates": None if cand is None else cs, "max_candidates": mc,
+                                   "exclude_non_subsample": excl, "batch_size": bs, "seed": seed, "returned": picks_}, what="SubSamplingWrapper: " + msg_[1])
                 ctx.violation("SubSamplingWrapper", "reduced_space", "rows handed to the wrapped strategy are not labeled samples + a subset of the candidates in index order",
                               {"y": [None if np.isnan(v) else v for v in y], "cand": cs, "mc": mc, "excl": excl}, found_input=False,
                               what="correspondence: the reduced data set of exclude_non_subsample=True is not sorted(labeled U subset)")
